@@ -59,6 +59,8 @@ Proof. intros. unfold get_be. destruct (Nat.ltb_spec (length l) n); auto. lia. Q
 
 Lemma pow256_4 : 256 ^ Z.of_nat 4 = M32. Proof. reflexivity. Qed.
 Lemma pow256_8 : 256 ^ Z.of_nat 8 = M64. Proof. reflexivity. Qed.
+Lemma be_len4' : forall v, len (be 4 v) = 4.
+Proof. intros. unfold len. rewrite be_length. reflexivity. Qed.
 Lemma pow256_2 : 256 ^ Z.of_nat 2 = 65536. Proof. reflexivity. Qed.
 
 (* ---------- little endian ---------- *)
